@@ -575,7 +575,9 @@ class RoiSubsetStateNd(SubsetState):
         for att in self._atts:
             raw_comps.append(data[att, view])
         res_shape = raw_comps[0].shape
-        if not self.roi.defined():
+        if not self.roi.defined() or raw_comps[0].size == 0:
+            # (nothing to test for an empty view - the pre-transform below is
+            # applied chunk by chunk and an empty array has no chunks)
             return np.zeros(raw_comps[0].shape, dtype=bool)
 
         # The shortcut below relies on each dimension of the result being the
